@@ -1,5 +1,6 @@
 (* EvaporationR.v — theorems about Water/Evaporation.v at the real instance (exact arithmetic).
    C04 (0 <= Es <= EsPot, 0 <= EsPot), C20 (mulch settings), C01 (balance), C03 (bounds), definedness. *)
+From Flocq Require Import Core.
 From AC Require Import Num RInst Params.
 From AC.Water Require Import Evaporation.
 From AC.proofs Require Import ProfR.
@@ -21,9 +22,9 @@ Qed.
 (** * The extraction loops *)
 
 (* bookkeeping: what leaves [ex] enters [es] and leaves [te]; [ex] stays non-negative *)
-Lemma ev_extract_acc clamp n z : forall p th ex es te th' ex' es' te',
-  ev_extract clamp n z p th ex es te = Some (th', ex', es', te') ->
-  es' + ex' = es + ex /\ te' - ex' = te - ex /\ (0 <= ex -> 0 <= ex') /\ (ex <= 0 -> th' = th /\ ex' = ex) /\ (clamp = true -> ex' <= ex).
+Lemma ev_extract_acc n z : forall p th ex es te th' ex' es' te',
+  ev_extract n z p th ex es te = Some (th', ex', es', te') ->
+  es' + ex' = es + ex /\ te' - ex' = te - ex /\ (0 <= ex -> 0 <= ex') /\ (ex <= 0 -> th' = th /\ ex' = ex) /\ ex' <= ex.
 Proof.
   induction n as [|n IH]; intros p th ex es te th' ex' es' te' H.
   - cbn in H. destruct (Rltb 0 ex) in H; inversion H; subst; repeat split; try lra; auto.
@@ -31,16 +32,13 @@ Proof.
     2:{ intros H; inversion H; subst; repeat split; try lra; auto. }
     destruct p as [|c p]; [discriminate|]. destruct th as [|t th]; [discriminate|].
     match goal with |- context [Rleb ex ?a] => set (avw := a) end.
-    assert (Hc : clamp = true -> 0 <= avw).
-    { intros ->. unfold avw. cbn [andb]. rcases; lra. }
+    assert (Hc : 0 <= avw) by (unfold avw; rcases; lra).
     clearbody avw.
     destruct (Rleb_spec ex avw) as [Hle|Hle].
     + intros H; inversion H; subst. repeat split; intros; try lra.
-    + destruct (ev_extract clamp n z p th (ex - avw) (es + avw) (te - avw)) as [[[[thr exr] esr] ter]|] eqn:E; [|discriminate].
+    + destruct (ev_extract n z p th (ex - avw) (es + avw) (te - avw)) as [[[[thr exr] esr] ter]|] eqn:E; [|discriminate].
       intros H; inversion H; subst. apply IH in E. destruct E as (E1 & E2 & E3 & E4 & E5).
-      repeat split; intros; try lra; try (apply E3; lra);
-        try (exfalso; lra);
-        match goal with Hc' : clamp = true |- _ => specialize (E5 Hc'); specialize (Hc Hc'); lra end.
+      repeat split; intros; try lra; try (apply E3; lra); exfalso; lra.
 Qed.
 
 Lemma Rdiv_le_r a b d : 0 < d -> a <= b * d -> a / d <= b.
@@ -53,9 +51,9 @@ Lemma wf_prof_dz_ok p : wf_prof p -> dz_ok p.
 Proof. unfold wf_prof, dz_ok. apply Forall_impl. intros c [H _ _ _ _ _ _]. lra. Qed.
 
 (* water balance of an extraction loop: what enters EsAct leaves the profile *)
-Lemma ev_extract_storage clamp n z : forall p th ex es te th' ex' es' te',
+Lemma ev_extract_storage n z : forall p th ex es te th' ex' es' te',
   dz_ok p ->
-  ev_extract clamp n z p th ex es te = Some (th', ex', es', te') ->
+  ev_extract n z p th ex es te = Some (th', ex', es', te') ->
   storage p th' + es' = storage p th + es.
 Proof.
   induction n as [|n IH]; intros p th ex es te th' ex' es' te' Hp H.
@@ -69,36 +67,26 @@ Proof.
     + intros H; inversion H; subst. rewrite !storage_cons.
       assert (W c ((1000 * t * c_dz c - ex) / (1000 * c_dz c)) = W c t - ex) by (unfold W; field; auto).
       lra.
-    + destruct (ev_extract clamp n z p th (ex - avw) (es + avw) (te - avw)) as [[[[thr exr] esr] ter]|] eqn:E; [|discriminate].
+    + destruct (ev_extract n z p th (ex - avw) (es + avw) (te - avw)) as [[[[thr exr] esr] ter]|] eqn:E; [|discriminate].
       intros H; inversion H; subst. apply IH in E; auto. rewrite !storage_cons.
       assert (W c ((1000 * t * c_dz c - avw) / (1000 * c_dz c)) = W c t - avw) by (unfold W; field; auto).
       rnum. lra.
 Qed.
 
-(* Stage 2 does not clamp the available water at 0, and its loop visits one compartment more than the
-   evaporation layer has; in that compartment the factor is <= 0 and a negative amount would be "extracted".
-   [ext_ok] says that the loop never meets a negative available water before the demand is met. *)
-Fixpoint ext_ok (n : nat) (z : R) (p : list (Comp R)) (th : list R) (ex : R) : Prop :=
-  match n, p, th with
-  | S n', c :: p', t :: th' =>
-    0 < ex ->
-    let avw := (1000 * t * c_dz c - 1000 * c_th_dry c * c_dz c) * ev_factor c z in
-    0 <= avw /\ (avw < ex -> ext_ok n' z p' th' (ex - avw))
-  | _, _, _ => True
-  end.
-
 Lemma Forall2_Rle_refl (l : list R) : Forall2 Rle l l.
 Proof. induction l; constructor; auto; lra. Qed.
 
-Lemma ev_extract_bounds clamp n z : forall p th ex es te th' ex' es' te',
-  wf_prof p -> in_bounds p th -> (clamp = true \/ ext_ok n z p th ex) ->
-  ev_extract clamp n z p th ex es te = Some (th', ex', es', te') ->
-  in_bounds p th' /\ Forall2 Rle th' th /\ es <= es'.
+(* an extraction loop keeps the water contents within bounds and only lowers them: the amount taken from a
+   compartment is between 0 and max(0, (W - Wdry) * factor) <= W - Wdry  (factor <= 1) *)
+Lemma ev_extract_bounds n z : forall p th ex es te th' ex' es' te',
+  wf_prof p -> in_bounds p th ->
+  ev_extract n z p th ex es te = Some (th', ex', es', te') ->
+  in_bounds p th' /\ Forall2 Rle th' th.
 Proof.
-  induction n as [|n IH]; intros p th ex es te th' ex' es' te' Hp Hb Hok H.
-  - cbn in H. destruct (Rltb 0 ex) in H; inversion H; subst; repeat split; auto using Forall2_Rle_refl; lra.
+  induction n as [|n IH]; intros p th ex es te th' ex' es' te' Hp Hb H.
+  - cbn in H. destruct (Rltb 0 ex) in H; inversion H; subst; split; auto using Forall2_Rle_refl.
   - cbn [ev_extract] in H. revert H. rnum. destruct (Rltb_spec 0 ex) as [Hex|Hex].
-    2:{ intros H; inversion H; subst; repeat split; auto using Forall2_Rle_refl; lra. }
+    2:{ intros H; inversion H; subst; split; auto using Forall2_Rle_refl. }
     destruct p as [|c p]; [discriminate|]. destruct th as [|t th]; [discriminate|].
     inversion Hp as [|? ? Hc Hp']; subst. inversion Hb as [|? ? ? ? Ht Hb']; subst.
     destruct Hc as [Hdz _ _ _ _ _ _].
@@ -111,13 +99,9 @@ Proof.
     { unfold avw0. apply Rle_trans with ((1000 * t * c_dz c - 1000 * c_th_dry c * c_dz c) * 1); [|lra].
       apply Rmult_le_compat_l; lra. }
     match goal with |- context [Rleb ex ?a] => set (avw := a) end.
-    assert (Havw : 0 <= avw <= 1000 * t * c_dz c - 1000 * c_th_dry c * c_dz c /\
-                   (clamp = true \/ (avw = avw0 /\ (avw0 < ex -> ext_ok n z p th (ex - avw0))))).
-    { unfold avw. fold avw0. destruct Hok as [Hc|Hok].
-      - subst clamp. cbn [andb]. split; [|auto]. destruct (Rltb_spec avw0 0); lra.
-      - cbn [ext_ok] in Hok. rnum. specialize (Hok Hex). cbv zeta in Hok. fold avw0 in Hok. destruct Hok as [H0 Hok].
-        assert (Rltb avw0 0 = false) as -> by (apply Rltb_false; lra). rewrite andb_false_r. split; [lra|]. right; auto. }
-    clearbody avw. destruct Havw as [[Ha0 Ha1] Hnext].
+    assert (Havw : 0 <= avw <= 1000 * t * c_dz c - 1000 * c_th_dry c * c_dz c).
+    { unfold avw. fold avw0. destruct (Rltb_spec avw0 0); lra. }
+    clearbody avw. destruct Havw as [Ha0 Ha1].
     assert (Hd : 0 < 1000 * c_dz c) by lra.
     assert (Hstep : forall a, 0 <= a <= avw ->
               c_th_dry c <= (1000 * t * c_dz c - a) / (1000 * c_dz c) <= c_th_s c /\
@@ -128,12 +112,10 @@ Proof.
       - apply Rdiv_le_r; auto. lra. }
     destruct (Rleb_spec ex avw) as [Hle|Hle].
     + intros H; inversion H; subst. destruct (Hstep ex) as [H1 H2]; [lra|].
-      repeat split; [constructor; auto | constructor; auto using Forall2_Rle_refl | lra].
-    + destruct (ev_extract clamp n z p th (ex - avw) (es + avw) (te - avw)) as [[[[thr exr] esr] ter]|] eqn:E; [|discriminate].
+      split; [constructor; auto | constructor; auto using Forall2_Rle_refl].
+    + destruct (ev_extract n z p th (ex - avw) (es + avw) (te - avw)) as [[[[thr exr] esr] ter]|] eqn:E; [|discriminate].
       intros H; inversion H; subst. destruct (Hstep avw) as [H1 H2]; [lra|].
-      apply IH in E; auto.
-      * destruct E as (E1 & E2 & E3). repeat split; [constructor; auto | constructor; auto | lra].
-      * destruct Hnext as [Hc|[Heq Hn]]; [left; auto|right]. rewrite Heq. apply Hn. lra.
+      apply IH in E; auto. destruct E as (E1 & E2). split; constructor; auto.
 Qed.
 
 (* ------------------------------------------------------------------------------------------------ *)
@@ -157,77 +139,59 @@ Proof.
   intros H; revert c; induction H; intros c' H'; inversion H'; subst; constructor; eauto; lra.
 Qed.
 
-Definition step_ok (p : list (Comp R)) (ws rew fw fe zmin zmax edt : R) (s : list R * R * R * R) : Prop :=
-  let '(th, z, _, _) := s in
-  match ev_step_demand p ws rew fw fe zmin zmax edt th z with
-  | Some (z', ex) => ext_ok (Z.to_nat (ev_count p z' + 2)) z' p th ex
-  | None => True
-  end.
-
-Fixpoint loop_ok (k : nat) (p : list (Comp R)) (ws rew fw fe zmin zmax edt : R) (s : list R * R * R * R) : Prop :=
-  match k with
-  | O => True
-  | S k' => step_ok p ws rew fw fe zmin zmax edt s /\
-            match ev_stage2_step p ws rew fw fe zmin zmax edt s with
-            | Some s' => loop_ok k' p ws rew fw fe zmin zmax edt s'
-            | None => True
-            end
-  end.
-
 Section Stage2.
   Variables (p : list (Comp R)) (ws rew fw fe zmin zmax edt : R).
   Hypothesis Hedt : 0 <= edt.
 
   Lemma ev_step_acc th z es te th' z' es' te' :
     ev_stage2_step p ws rew fw fe zmin zmax edt (th, z, es, te) = Some (th', z', es', te') ->
-    es' + te' = es + te /\ es' - es <= edt /\ (dz_ok p -> storage p th' + es' = storage p th + es).
+    es' + te' = es + te /\ es <= es' /\ es' - es <= edt /\ (dz_ok p -> storage p th' + es' = storage p th + es).
   Proof.
     unfold ev_stage2_step.
     destruct (ev_step_demand p ws rew fw fe zmin zmax edt th z) as [[z1 ex]|] eqn:D; [|discriminate].
-    destruct (ev_extract false (Z.to_nat (ev_count p z1 + 2)) z1 p th ex es te) as [[[[th1 ex1] es1] te1]|] eqn:E; [|discriminate].
+    destruct (ev_extract (Z.to_nat (ev_count p z1 + 2)) z1 p th ex es te) as [[[[th1 ex1] es1] te1]|] eqn:E; [|discriminate].
     intros H; inversion H; subst. pose proof (ev_step_demand_le _ _ _ _ _ _ _ _ _ _ _ _ Hedt D) as Hle.
-    pose proof (ev_extract_acc _ _ _ _ _ _ _ _ _ _ _ _ E) as (A1 & A2 & A3 & A4 & _).
-    repeat split; [lra| |intros Hp; eapply ev_extract_storage; eauto].
+    pose proof (ev_extract_acc _ _ _ _ _ _ _ _ _ _ _ E) as (A1 & A2 & A3 & A4 & A5).
+    repeat split; [lra|lra| |intros Hp; eapply ev_extract_storage; eauto].
     destruct (Rle_dec 0 ex) as [H0|H0]; [specialize (A3 H0); lra|].
     destruct A4 as [_ A4]; lra.
   Qed.
 
   Lemma ev_step_bounds th z es te th' z' es' te' :
-    wf_prof p -> in_bounds p th -> step_ok p ws rew fw fe zmin zmax edt (th, z, es, te) ->
+    wf_prof p -> in_bounds p th ->
     ev_stage2_step p ws rew fw fe zmin zmax edt (th, z, es, te) = Some (th', z', es', te') ->
-    in_bounds p th' /\ Forall2 Rle th' th /\ es <= es'.
+    in_bounds p th' /\ Forall2 Rle th' th.
   Proof.
-    intros Hp Hb. unfold step_ok, ev_stage2_step.
+    intros Hp Hb. unfold ev_stage2_step.
     destruct (ev_step_demand p ws rew fw fe zmin zmax edt th z) as [[z1 ex]|] eqn:D; [|discriminate].
-    intros Hok.
-    destruct (ev_extract false (Z.to_nat (ev_count p z1 + 2)) z1 p th ex es te) as [[[[th1 ex1] es1] te1]|] eqn:E; [|discriminate].
+    destruct (ev_extract (Z.to_nat (ev_count p z1 + 2)) z1 p th ex es te) as [[[[th1 ex1] es1] te1]|] eqn:E; [|discriminate].
     intros H; inversion H; subst. eapply ev_extract_bounds; eauto.
   Qed.
 
   Lemma ev_loop_acc k : forall th z es te th' z' es' te',
     ev_stage2_loop k p ws rew fw fe zmin zmax edt (th, z, es, te) = Some (th', z', es', te') ->
-    es' + te' = es + te /\ es' - es <= INR k * edt /\ (dz_ok p -> storage p th' + es' = storage p th + es).
+    es' + te' = es + te /\ es <= es' /\ es' - es <= INR k * edt /\ (dz_ok p -> storage p th' + es' = storage p th + es).
   Proof.
     induction k as [|k IH]; intros th z es te th' z' es' te' H.
     - cbn in H. inversion H; subst. cbn [INR]. repeat split; lra.
     - cbn [ev_stage2_loop] in H.
       destruct (ev_stage2_step p ws rew fw fe zmin zmax edt (th, z, es, te)) as [[[[th1 z1] es1] te1]|] eqn:S1; [|discriminate].
-      apply ev_step_acc in S1. apply IH in H. destruct S1 as (S1 & S2 & S3). destruct H as (H1 & H2 & H3).
-      rewrite S_INR. repeat split; [lra|lra|]. intros Hp. specialize (S3 Hp). specialize (H3 Hp). lra.
+      apply ev_step_acc in S1. apply IH in H. destruct S1 as (S1 & S1' & S2 & S3). destruct H as (H1 & H1' & H2 & H3).
+      rewrite S_INR. repeat split; [lra|lra|lra|]. intros Hp. specialize (S3 Hp). specialize (H3 Hp). lra.
   Qed.
 
   Lemma ev_loop_bounds k : forall th z es te th' z' es' te',
-    wf_prof p -> in_bounds p th -> loop_ok k p ws rew fw fe zmin zmax edt (th, z, es, te) ->
+    wf_prof p -> in_bounds p th ->
     ev_stage2_loop k p ws rew fw fe zmin zmax edt (th, z, es, te) = Some (th', z', es', te') ->
-    in_bounds p th' /\ Forall2 Rle th' th /\ es <= es'.
+    in_bounds p th' /\ Forall2 Rle th' th.
   Proof.
-    induction k as [|k IH]; intros th z es te th' z' es' te' Hp Hb Hok H.
-    - cbn in H. inversion H; subst. repeat split; auto using Forall2_Rle_refl; lra.
-    - cbn [ev_stage2_loop] in H. cbn [loop_ok] in Hok. destruct Hok as [Hs Hok].
+    induction k as [|k IH]; intros th z es te th' z' es' te' Hp Hb H.
+    - cbn in H. inversion H; subst. split; auto using Forall2_Rle_refl.
+    - cbn [ev_stage2_loop] in H.
       destruct (ev_stage2_step p ws rew fw fe zmin zmax edt (th, z, es, te)) as [[[[th1 z1] es1] te1]|] eqn:S1; [|discriminate].
-      apply ev_step_bounds in S1; auto. destruct S1 as (S1 & S2 & S3).
-      apply IH in H; auto. destruct H as (H1 & H2 & H3).
-      repeat split; [auto | eapply Forall2_Rle_trans; eauto | lra].
+      apply ev_step_bounds in S1; auto. destruct S1 as (S1 & S2).
+      apply IH in H; auto. destruct H as (H1 & H2).
+      split; [auto | eapply Forall2_Rle_trans; eauto].
   Qed.
 End Stage2.
 
@@ -274,9 +238,9 @@ Proof.
   set (ex1 := pmin (espot - ev_pond_es surf espot) wsurf2).
   assert (Hex1 : ex1 <= espot - ev_pond_es surf espot) by apply pmin_le_l.
   rnum. destruct (Rltb_spec 0 ex1) as [Hpos|Hpos].
-  - destruct (ev_extract true (Z.to_nat (ev_count p (ep_zmin par) + 2)) (ep_zmin par) p th ex1
+  - destruct (ev_extract (Z.to_nat (ev_count p (ep_zmin par) + 2)) (ep_zmin par) p th ex1
                 (ev_pond_es surf espot) (espot - ev_pond_es surf espot)) as [[[[th1 ex1'] es1] te1]|] eqn:E; [|discriminate].
-    pose proof (ev_extract_acc _ _ _ _ _ _ _ _ _ _ _ _ E) as (A1 & A2 & A3 & _ & A5). specialize (A5 eq_refl).
+    pose proof (ev_extract_acc _ _ _ _ _ _ _ _ _ _ _ E) as (A1 & A2 & A3 & _ & A5).
     assert (A3' : 0 <= ex1') by (apply A3; lra).
     assert (Hspec : forall ws wst,
        stage1_spec par p st th et0 rain irr gs
@@ -291,7 +255,7 @@ Proof.
       - intros. rnum. lra.
       - rnum. lra.
       - intros Hp. eapply ev_extract_storage; eauto.
-      - intros Hp Hb. pose proof (ev_extract_bounds _ _ _ _ _ _ _ _ _ _ _ _ Hp Hb (or_introl eq_refl) E) as (H1 & H2 & _). auto. }
+      - intros Hp Hb. pose proof (ev_extract_bounds _ _ _ _ _ _ _ _ _ _ _ Hp Hb E) as (H1 & H2). auto. }
     match goal with |- (if ?c then _ else _) = _ -> _ => destruct c end.
     + match goal with |- match ?X with _ => _ end = _ -> _ => destruct X as [e|]; [|discriminate] end.
       intros H; inversion H; subst m. rnum. apply Hspec.
@@ -334,42 +298,25 @@ Proof.
   intros H. rewrite INR_IZR_INZ, Z2Nat.id by lia. field. apply IZR_neq. lia.
 Qed.
 
-(* the run never meets a negative available water in stage 2 (see [ext_ok]) *)
-Definition evap_ok (par : EvPar) (p : list (Comp R)) (st : EvState) (th : list R) (et0 infl rain irr : R) (gs : bool) : Prop :=
-  match ev_stage1 par p st th et0 infl rain irr gs with
-  | Some m => 0 < em_te m ->
-      loop_ok (Z.to_nat (ep_steps par)) p (em_wstage2 m) (ep_rew par) (ep_fwrelexp par) (ep_fevap par)
-              (ep_zmin par) (ep_zmax par) (em_te m / IZR (ep_steps par)) (em_th m, em_evapz m, em_es m, em_te m)
-  | None => True
-  end.
-
-(** ** C04: actual evaporation never exceeds potential (unconditional); it is non-negative when stage 2 behaves *)
-Theorem es_le_pot_upper par p st th et0 infl rain irr gs o :
-  soil_evaporation par p st th et0 infl rain irr gs = Some o ->
-  0 <= eo_espot o -> eo_es o <= eo_espot o.
-Proof.
-  intros H He. apply soil_evaporation_spec in H. destruct H as (m & S1 & Hs & E1 & _ & _ & H).
-  apply ev_stage1_spec in S1. destruct S1. rewrite E1 in *. specialize (s1_te0 He).
-  destruct H as [(Hte & _ & ->)|(Hte & z2 & te2 & L)]; [lra|].
-  unfold stage2_run in L. apply ev_loop_acc in L.
-  - destruct L as (_ & L & _). rewrite steps_cancel in L by auto. lra.
-  - apply Rmult_le_pos; [lra|]. left. apply Rinv_0_lt_compat. apply IZR_lt. auto.
-Qed.
-
+(** ** C04: 0 <= Es <= EsPot.  Since repo commit 4d991b1 (stage 2 clamps AvW at 0 like stage 1) no hypothesis on the
+    profile or on the water contents is needed: the only premise is 0 <= EsPot (see [espot_nonneg]). *)
 Theorem es_le_pot par p st th et0 infl rain irr gs o :
-  wf_prof p -> in_bounds p th -> evap_ok par p st th et0 infl rain irr gs ->
   soil_evaporation par p st th et0 infl rain irr gs = Some o ->
   0 <= eo_espot o -> 0 <= eo_es o <= eo_espot o.
 Proof.
-  intros Hp Hb Hok H He. split; [|eapply es_le_pot_upper; eauto].
-  apply soil_evaporation_spec in H. destruct H as (m & S1 & Hs & E1 & _ & _ & H).
-  unfold evap_ok in Hok. rewrite S1 in Hok.
-  apply ev_stage1_spec in S1. destruct S1. rewrite E1 in *.
+  intros H He. apply soil_evaporation_spec in H. destruct H as (m & S1 & Hs & E1 & _ & _ & H).
+  apply ev_stage1_spec in S1. destruct S1. rewrite E1 in *. specialize (s1_te0 He).
   pose proof (ev_pond_es_range (es_surf st) (em_espot m) He) as Hpe. rnum.
   destruct H as [(Hte & _ & ->)|(Hte & z2 & te2 & L)]; [lra|].
-  destruct (s1_bounds0 Hp Hb) as [Hb1 _].
-  unfold stage2_run in L. eapply ev_loop_bounds in L; eauto. destruct L as (_ & _ & L). lra.
+  unfold stage2_run in L. apply ev_loop_acc in L.
+  - destruct L as (_ & L0 & L & _). rewrite steps_cancel in L by auto. lra.
+  - apply Rmult_le_pos; [lra|]. left. apply Rinv_0_lt_compat. apply IZR_lt. auto.
 Qed.
+
+Corollary es_le_pot_upper par p st th et0 infl rain irr gs o :
+  soil_evaporation par p st th et0 infl rain irr gs = Some o ->
+  0 <= eo_espot o -> eo_es o <= eo_espot o.
+Proof. intros H He. eapply es_le_pot; eauto. Qed.
 
 (* the invariant behind both: EsAct + ToExtract = EsPot, ToExtract >= 0 *)
 Theorem es_invariant par p st th et0 infl rain irr gs o :
@@ -390,7 +337,7 @@ Proof.
   pose proof (ev_pond_sum (es_surf st) (em_espot m)) as Hps. rewrite E3, s1_surf0. rnum.
   destruct H as [(Hte & -> & ->)|(Hte & z2 & te2 & L)]; [lra|].
   unfold stage2_run in L. destruct (Rle_dec 0 (em_te m / IZR (ep_steps par))) as [Hedt|Hedt].
-  - apply ev_loop_acc in L; auto. destruct L as (_ & _ & L). specialize (L Hp). rnum. lra.
+  - apply ev_loop_acc in L; auto. destruct L as (_ & _ & _ & L). specialize (L Hp). rnum. lra.
   - exfalso. apply Hedt. apply Rmult_le_pos; [lra|]. left. apply Rinv_0_lt_compat. apply IZR_lt. auto.
 Qed.
 
@@ -401,16 +348,15 @@ Proof. intros Hp. apply evaporation_balance. apply wf_prof_dz_ok; auto. Qed.
 
 (** ** C03: water contents stay within [th_dry, th_s] and only decrease; ponding only decreases *)
 Theorem evaporation_bounds par p st th et0 infl rain irr gs o :
-  wf_prof p -> in_bounds p th -> evap_ok par p st th et0 infl rain irr gs ->
+  wf_prof p -> in_bounds p th ->
   soil_evaporation par p st th et0 infl rain irr gs = Some o ->
   in_bounds p (eo_th o) /\ Forall2 Rle (eo_th o) th.
 Proof.
-  intros Hp Hb Hok H.
+  intros Hp Hb H.
   apply soil_evaporation_spec in H. destruct H as (m & S1 & Hs & E1 & _ & _ & H).
-  unfold evap_ok in Hok. rewrite S1 in Hok.
   apply ev_stage1_spec in S1. destruct S1. destruct (s1_bounds0 Hp Hb) as [Hb1 Hle1].
   destruct H as [(Hte & -> & _)|(Hte & z2 & te2 & L)]; [auto|].
-  unfold stage2_run in L. eapply ev_loop_bounds in L; eauto. destruct L as (L1 & L2 & _).
+  unfold stage2_run in L. eapply ev_loop_bounds in L; eauto. destruct L as (L1 & L2).
   split; auto. eapply Forall2_Rle_trans; eauto.
 Qed.
 
@@ -548,13 +494,14 @@ Proof.
 Qed.
 
 (* ------------------------------------------------------------------------------------------------ *)
-(** * Witnesses: a concrete run in which stage 2 over-runs the evaporation layer
+(** * A concrete run in which stage 2 over-runs the evaporation layer (used for the [Example]s)
 
    Three 0.1 m compartments (th_dry 0.1, th_wp 0.2, th_fc 0.3, th_s 0.5), EvapZmin = EvapZmax = 0.15 m, REW = 29 mm
    (more than the 0.15 m layer holds between air-dry and field capacity: 30 mm), one sub-daily step, ET0 = 10 mm,
    th = [0.12; 0.10; 0.50].  The layer offers 2 mm; the loop goes on to the third compartment (index comp_sto),
-   whose factor is 1 - (0.3 - 0.15)/0.1 = -0.5: AvW = -20 mm is "extracted", i.e. 20 mm are ADDED to it
-   (th 0.5 -> 0.7 > th_s) and EsAct becomes 2 - 20 = -18 mm.  Replayed on the Python function: Es = -18.0, th[2] = 0.7. *)
+   whose factor is 1 - (0.3 - 0.15)/0.1 = -0.5.  Before repo commit 4d991b1 AvW = -20 mm was "extracted" there
+   (th 0.5 -> 0.7 > th_s, EsAct = 2 - 20 = -18 mm: the former [es_nonneg_refuted] / [evaporation_bounds_refuted]);
+   with the clamp the compartment is left alone: Es = 2 mm, th = [0.1; 0.1; 0.5]. *)
 Ltac rdec1 := match goal with
   | |- context [Rltb ?a ?b] => no_if a; no_if b; first [rewrite (Rltb_true a b) by lra | rewrite (Rltb_false a b) by lra]
   | |- context [Rleb ?a ?b] => no_if a; no_if b; first [rewrite (Rleb_true a b) by lra | rewrite (Rleb_false a b) by lra]
@@ -616,7 +563,7 @@ Proof.
 Qed.
 
 Lemma wit_extract : exists th' ex' es' te',
-  ev_extract (N:=RN) false 3 (15/100) wp3 wth (1 * (10 / 1)) 0 10 = Some (th', ex', es', te') /\ es' = -18 /\ th' = [1/10; 1/10; 7/10].
+  ev_extract (N:=RN) 3 (15/100) wp3 wth (1 * (10 / 1)) 0 10 = Some (th', ex', es', te') /\ es' = 2 /\ th' = [1/10; 1/10; 5/10].
 Proof.
   cbn. rnum. rewrite fac1, fac2, fac3. rdec. cbn. rdec. cbn. rdec.
   do 4 eexists. split; [reflexivity|]. split; [lra|].
@@ -627,7 +574,7 @@ Lemma wit_count : Z.to_nat (ev_count (N:=RN) wp3 (15/100) + 2) = 3%nat.
 Proof. unfold ev_count. cbn. rnum. rdec. reflexivity. Qed.
 
 Lemma wit_run : exists o, soil_evaporation wpar wp3 wst wth 10 0 0 0 false = Some o /\
-  eo_espot o = 10 /\ eo_es o = -18 /\ eo_th o = [1/10; 1/10; 7/10].
+  eo_espot o = 10 /\ eo_es o = 2 /\ eo_th o = [1/10; 1/10; 5/10].
 Proof.
   unfold soil_evaporation. destruct (wit_stage1 wth) as (m & -> & Hp & Hs & Hw & Hz & Ht & He & Hte).
   cbn [ep_steps wpar Z.leb Z.compare Pos.compare]. rnum. rewrite Hte, Hw, Hz, Ht, He.
@@ -645,33 +592,20 @@ Proof. repeat constructor; cbn; lra. Qed.
 Lemma wit_ranges : espot_ranges wpar wst 10.
 Proof. constructor; cbn; lra. Qed.
 
-(* 0 <= Es fails for the faithful model, even on a well-formed profile within bounds with EsPot >= 0 *)
-Theorem es_nonneg_refuted : exists par p st th et0 infl rain irr gs o,
-  wf_prof p /\ in_bounds p th /\ espot_ranges par st et0 /\
-  soil_evaporation par p st th et0 infl rain irr gs = Some o /\ 0 <= eo_espot o /\ eo_es o < 0.
-Proof.
-  destruct wit_run as (o & H & H1 & H2 & H3).
-  exists wpar, wp3, wst, wth, 10, 0, 0, 0, false, o.
-  split; [apply wit_wf|]. split; [apply wit_in_bounds|]. split; [apply wit_ranges|]. split; [exact H|]. split; lra.
-Qed.
+(* the run that refuted 0 <= Es and th <= th_s before the repair now satisfies both *)
+Example overrun_now_harmless : exists o, soil_evaporation wpar wp3 wst wth 10 0 0 0 false = Some o /\
+  eo_es o = 2 /\ eo_th o = [1/10; 1/10; 5/10].
+Proof. destruct wit_run as (o & H & H1 & H2 & H3). exists o. auto. Qed.
 
-(* ... and so does th <= th_s (water is added to the compartment below the evaporation layer) *)
-Theorem evaporation_bounds_refuted : exists par p st th et0 infl rain irr gs o,
-  wf_prof p /\ in_bounds p th /\ espot_ranges par st et0 /\
-  soil_evaporation par p st th et0 infl rain irr gs = Some o /\ ~ in_bounds p (eo_th o) /\ ~ Forall2 Rle (eo_th o) th.
+(* the hypotheses of the theorems are satisfiable on this run *)
+Example es_le_pot_ex : exists o, soil_evaporation wpar wp3 wst wth 10 0 0 0 false = Some o /\ 0 <= eo_es o <= eo_espot o.
 Proof.
-  destruct wit_run as (o & H & H1 & H2 & H3).
-  exists wpar, wp3, wst, wth, 10, 0, 0, 0, false, o.
-  split; [apply wit_wf|]. split; [apply wit_in_bounds|]. split; [apply wit_ranges|]. split; [exact H|]. split; rewrite H3; intros C.
-  - inversion C as [|? ? ? ? _ C1]; subst. inversion C1 as [|? ? ? ? _ C2]; subst. inversion C2 as [|? ? ? ? C3 _]; subst.
-    cbn in C3. lra.
-  - inversion C as [|? ? ? ? _ C1]; subst. inversion C1 as [|? ? ? ? _ C2]; subst. inversion C2 as [|? ? ? ? C3 _]; subst. lra.
+  destruct wit_run as (o & H & H1 & _). exists o. split; auto. eapply es_le_pot; eauto. lra.
 Qed.
-
-(* the hypotheses of the unconditional theorems are satisfiable on this run *)
-Example es_le_pot_upper_ex : exists o, soil_evaporation wpar wp3 wst wth 10 0 0 0 false = Some o /\ eo_es o <= eo_espot o.
+Example evaporation_bounds_ex : exists o, soil_evaporation wpar wp3 wst wth 10 0 0 0 false = Some o /\
+  in_bounds wp3 (eo_th o) /\ Forall2 Rle (eo_th o) wth.
 Proof.
-  destruct wit_run as (o & H & H1 & _). exists o. split; auto. eapply es_le_pot_upper; eauto. lra.
+  destruct wit_run as (o & H & _). exists o. split; auto. eapply evaporation_bounds; eauto using wit_wf, wit_in_bounds.
 Qed.
 Example evaporation_balance_ex : exists o, soil_evaporation wpar wp3 wst wth 10 0 0 0 false = Some o /\
   storage wp3 (eo_th o) + eo_surf o + eo_es o = storage wp3 wth + es_surf wst.
@@ -683,62 +617,158 @@ Proof.
   destruct wit_run as (o & H & _). exists o. split; auto. eapply espot_nonneg; eauto using wit_ranges.
 Qed.
 
-(* a moist profile on the same field: stage 2 is satisfied by the first compartment, [evap_ok] holds *)
-Definition wth2 : list R := [3/10; 3/10; 5/10].
+(* ------------------------------------------------------------------------------------------------ *)
+(** * Definedness / termination: with the derived fuel the function returns a result *)
 
-Lemma wit2_layer : exists e, evap_layer_water_content (N:=RN) wth2 (15/100) wp3 = Some e /\
-  el_sat e = 75 /\ el_fc e = 45 /\ el_dry e = 15 /\ el_act e = 45.
+Lemma ev_count_nonneg (p : list (Comp R)) z : (0 <= ev_count p z)%Z.
+Proof. unfold ev_count. induction p as [|c p IH]; cbn [count_if]; [lia|]. destruct (_ <? _)%num; lia. Qed.
+
+Lemma ev_count_mono (p : list (Comp R)) z z' : z <= z' -> (ev_count p z <= ev_count p z')%Z.
 Proof.
-  unfold evap_layer_water_content, ev_count. cbn. rnum. rdec. cbn. rnum.
-  eexists; split; [reflexivity|]. cbn. rnum. rewrite fac1, fac2. rdec. repeat split; lra.
+  intros Hz. unfold ev_count. induction p as [|c p IH]; cbn [count_if]; [lia|]. rnum.
+  destruct (Rltb_spec (c_dzsum c) z), (Rltb_spec (c_dzsum c) z'); try lia. exfalso; lra.
 Qed.
 
-Lemma wit2_demand : ev_step_demand (N:=RN) wp3 0 29 (4/10) 4 (15/100) (15/100) (10 / 1) wth2 (15/100) = Some (15/100, 1 * (10 / 1)).
+(* the profile has two compartments more than lie strictly above depth [zlim] *)
+Definition deep_enough (p : list (Comp R)) (zlim : R) : Prop := (ev_count p zlim + 2 <= Z.of_nat (length p))%Z.
+
+Lemma elwc_loop_defined n z : forall (p : list (Comp R)) th a,
+  (n <= length p)%nat -> (n <= length th)%nat -> exists e, elwc_loop n z p th a = Some e.
 Proof.
-  unfold ev_step_demand. destruct wit2_layer as (e & -> & Hs & Hf & Hd & Ha).
-  rnum. rewrite (Rltb_false (15/100) (15/100)) by lra.
-  rewrite ev_kr_clamp; [reflexivity|lra|].
-  unfold ev_wrel. rnum. rewrite Hs, Hf, Hd, Ha. lra.
+  induction n as [|n IH]; intros p th a Hp Ht; cbn [elwc_loop]; [eauto|].
+  destruct p as [|c p]; [cbn in Hp; lia|]. destruct th as [|t th]; [cbn in Ht; lia|].
+  apply IH; cbn in *; lia.
 Qed.
 
-Lemma wit2_extract : exists th' ex' es' te',
-  ev_extract (N:=RN) false 3 (15/100) wp3 wth2 (1 * (10 / 1)) 0 10 = Some (th', ex', es', te') /\ es' = 10.
+Lemma elwc_defined th z p zlim :
+  z <= zlim -> deep_enough p zlim -> length th = length p -> exists e, evap_layer_water_content th z p = Some e.
 Proof.
-  cbn. rnum. rewrite fac1. rdec. do 4 eexists. split; [reflexivity|]. lra.
+  intros Hz Hd Hl. unfold evap_layer_water_content.
+  pose proof (ev_count_mono p z zlim Hz). pose proof (ev_count_nonneg p z). unfold deep_enough in Hd.
+  destruct (elwc_loop_defined (Z.to_nat (ev_count p z + 1)) z p th el0) as [e ->]; [lia|lia|]. eauto.
 Qed.
 
-Lemma wit2_run : exists o, soil_evaporation wpar wp3 wst wth2 10 0 0 0 false = Some o /\ eo_espot o = 10 /\ eo_es o = 10.
+Lemma ev_extract_defined n z : forall (p : list (Comp R)) th ex es te,
+  (n <= length p)%nat -> (n <= length th)%nat ->
+  exists th' ex' es' te', ev_extract n z p th ex es te = Some (th', ex', es', te') /\ length th' = length th.
 Proof.
-  unfold soil_evaporation. destruct (wit_stage1 wth2) as (m & -> & Hp & Hs & Hw & Hz & Ht & He & Hte).
-  cbn [ep_steps wpar Z.leb Z.compare Pos.compare]. rnum. rewrite Hte, Hw, Hz, Ht, He.
-  rewrite (Rltb_true 0 10) by lra.
-  cbn [ep_rew ep_fwrelexp ep_fevap ep_zmin ep_zmax wpar Z.to_nat Pos.to_nat Pos.iter_op ev_stage2_loop ev_stage2_step].
-  change (Pos.to_nat 1) with 1%nat. cbn [ev_stage2_loop]. unfold ev_stage2_step. rewrite wit2_demand. rewrite wit_count.
-  destruct wit2_extract as (th' & ex' & es' & te' & -> & E1).
-  eexists. split; [reflexivity|]. cbn. repeat split; auto.
+  induction n as [|n IH]; intros p th ex es te Hp Ht; cbn [ev_extract].
+  - destruct (_ >? _)%num; do 4 eexists; split; reflexivity.
+  - destruct (_ >? _)%num; [|do 4 eexists; split; reflexivity].
+    destruct p as [|c p]; [cbn in Hp; lia|]. destruct th as [|t th]; [cbn in Ht; lia|].
+    match goal with |- context [if ?c then Some _ else _] => destruct c end; [do 4 eexists; split; reflexivity|].
+    match goal with |- context [ev_extract n z p th ?a ?b ?c] =>
+      destruct (IH p th a b c) as (th' & ex' & es' & te' & -> & Hl); [cbn in *; lia|cbn in *; lia|] end.
+    do 4 eexists; split; [reflexivity|]. cbn. lia.
 Qed.
 
-Lemma wit2_ok : evap_ok wpar wp3 wst wth2 10 0 0 0 false.
+Lemma ev_fuel_ok zmax z : (zmax - z) * 1000 <= INR (ev_fuel zmax z).
 Proof.
-  unfold evap_ok. destruct (wit_stage1 wth2) as (m & -> & Hp & Hs & Hw & Hz & Ht & He & Hte). intros _.
-  rewrite Hte, Hw, Hz, Ht, He. cbn [ep_steps ep_rew ep_fwrelexp ep_fevap ep_zmin ep_zmax wpar Z.to_nat].
-  change (Pos.to_nat 1) with 1%nat. cbn [loop_ok]. split.
-  - unfold step_ok. rnum. rewrite wit2_demand, wit_count. cbn [ext_ok wp3 wth2]. intros _. cbv zeta. rnum. rewrite fac1.
-    cbn. split; [lra|]. intros C. exfalso. lra.
-  - destruct (ev_stage2_step _ _ _ _ _ _ _ _ _); exact I.
+  unfold ev_fuel. rnum. set (x := (zmax - z) * 1000).
+  destruct (Rlt_dec x 0) as [Hx|Hx].
+  - apply Rle_trans with 0; [lra|apply pos_INR].
+  - assert (Hx' : 0 <= x) by lra. rewrite Ztrunc_floor by auto.
+    pose proof (Zfloor_ub x). assert (0 <= Zfloor x)%Z by (apply Zfloor_lub; simpl; lra).
+    rewrite INR_IZR_INZ, Z2Nat.id by lia. rewrite plus_IZR. lra.
 Qed.
 
-Lemma wit2_in_bounds : in_bounds wp3 wth2.
-Proof. repeat constructor; cbn; lra. Qed.
+Section Defined.
+  Variables (p : list (Comp R)) (ws rew fw fe zmin zmax edt : R).
+  Let zlim := zmax + 1/1000.
+  Hypothesis Hdeep : deep_enough p zlim.
 
-Example es_le_pot_ex : exists o, soil_evaporation wpar wp3 wst wth2 10 0 0 0 false = Some o /\ 0 <= eo_es o <= eo_espot o.
+  Lemma ev_expand_defined fuel : forall th z wrel wcheck,
+    length th = length p -> (zmax - z) * 1000 <= INR fuel -> z <= zlim ->
+    exists z' w', ev_expand fuel p th ws rew fw zmin zmax z wrel wcheck = Some (z', w') /\ z' <= zlim.
+  Proof.
+    induction fuel as [|fuel IH]; intros th z wrel wcheck Hl Hf Hz; cbn [ev_expand]; rnum.
+    - destruct (Rltb_spec z zmax) as [Hlt|Hge]; [cbn [INR] in Hf; exfalso; lra|].
+      rewrite andb_false_r. eauto.
+    - destruct (Rltb wrel wcheck); cbn [andb]; [|eauto].
+      destruct (Rltb_spec z zmax) as [Hlt|Hge]; [|eauto].
+      assert (Hz' : z + 1 / 1000 <= zlim) by (unfold zlim; lra).
+      destruct (elwc_defined th (z + 1/1000) p zlim Hz' Hdeep Hl) as [e He]. rnum. rewrite He.
+      apply IH; auto. rewrite S_INR in Hf. lra.
+  Qed.
+
+  Lemma ev_step_defined th z es te :
+    length th = length p -> z <= zlim ->
+    exists th' z' es' te', ev_stage2_step p ws rew fw fe zmin zmax edt (th, z, es, te) = Some (th', z', es', te') /\
+                           length th' = length p /\ z' <= zlim.
+  Proof.
+    intros Hl Hz. unfold ev_stage2_step, ev_step_demand.
+    destruct (elwc_defined th z p zlim Hz Hdeep Hl) as [e ->].
+    assert (Hex : exists z' w', (if (zmax >? zmin)%num
+                    then ev_expand (ev_fuel zmax z) p th ws rew fw zmin zmax z (ev_wrel e ws rew) (ev_wcheck fw zmin zmax z)
+                    else Some (z, ev_wrel e ws rew)) = Some (z', w') /\ z' <= zlim).
+    { destruct (_ >? _)%num; [|eauto]. apply ev_expand_defined; auto. apply ev_fuel_ok. }
+    destruct Hex as (z' & w' & -> & Hz').
+    pose proof (ev_count_mono p z' zlim Hz'). pose proof (ev_count_nonneg p z'). unfold deep_enough in Hdeep.
+    match goal with |- context [ev_extract ?n z' p th ?a es te] =>
+      destruct (ev_extract_defined n z' p th a es te) as (th' & ex' & es' & te' & -> & Hl'); [lia|lia|] end.
+    do 4 eexists. split; [reflexivity|]. split; [congruence|auto].
+  Qed.
+
+  Lemma ev_loop_defined k : forall th z es te,
+    length th = length p -> z <= zlim ->
+    exists s', ev_stage2_loop k p ws rew fw fe zmin zmax edt (th, z, es, te) = Some s'.
+  Proof.
+    induction k as [|k IH]; intros th z es te Hl Hz; cbn [ev_stage2_loop]; [eauto|].
+    destruct (ev_step_defined th z es te Hl Hz) as (th' & z' & es' & te' & -> & Hl' & Hz'). apply IH; auto.
+  Qed.
+End Defined.
+
+Theorem soil_evaporation_defined par p st th et0 infl rain irr gs :
+  (0 < ep_steps par)%Z ->
+  (gs = false \/ ep_caltype par = 1 \/ ep_caltype par = 2)%Z ->
+  ep_zmin par <= ep_zmax par -> es_evapz st <= ep_zmax par ->
+  deep_enough p (ep_zmax par + 1/1000) -> length th = length p ->
+  exists o, soil_evaporation par p st th et0 infl rain irr gs = Some o.
 Proof.
-  destruct wit2_run as (o & H & H1 & _). exists o. split; auto.
-  eapply es_le_pot; eauto using wit_wf, wit2_in_bounds, wit2_ok. lra.
+  intros Hs Hc Hz Hez Hd Hl. unfold soil_evaporation.
+  assert ((ep_steps par <=? 0)%Z = false) as -> by (apply Z.leb_gt; auto).
+  set (zlim := ep_zmax par + 1/1000) in *.
+  assert (Hzmin : ep_zmin par <= zlim) by (unfold zlim; lra).
+  assert (Hm : exists m, ev_stage1 par p st th et0 infl rain irr gs = Some m /\ length (em_th m) = length p /\ em_evapz m <= zlim).
+  { unfold ev_stage1. cbv zeta.
+    assert (Hi : exists w z s2 w2,
+       (if ((es_tsc st =? 0)%Z || (es_dap st =? 1)%Z && negb (ep_simoff par))%bool
+        then match evap_layer_water_content th (ep_zmin par) p with
+             | Some e => Some (#0, ep_zmin par, true, ev_wstage2 e (ep_rew par))
+             | None => None end
+        else Some (es_wsurf st, es_evapz st, es_stage2 st, es_wstage2 st))%num = Some (w, z, s2, w2) /\ z <= zlim).
+    { destruct (_ || _)%bool.
+      - destruct (elwc_defined th (ep_zmin par) p zlim Hzmin Hd Hl) as [e ->]. do 4 eexists; split; [reflexivity|auto].
+      - do 4 eexists; split; [reflexivity|]. unfold zlim; lra. }
+    destruct Hi as (w & z & s2 & w2 & -> & Hz0).
+    assert (Hb : exists b, ev_espot_base par st et0 gs = Some b).
+    { unfold ev_espot_base. destruct gs; [|eauto]. destruct Hc as [Hc|[-> | ->]]; [discriminate| |]; cbn; eauto. }
+    destruct Hb as [b ->].
+    match goal with |- context [ev_extract ?n ?z p th ?a ?b ?c] =>
+      pose proof (ev_count_mono p z zlim Hzmin); pose proof (ev_count_nonneg p z); unfold deep_enough in Hd;
+      destruct (ev_extract_defined n z p th a b c) as (th' & ex' & es' & te' & E & Hl'); [lia|lia|] end.
+    assert (Hzz : forall b1 b2 : bool, (if b1 then ep_zmin par else if b2 then ep_zmin par else z) <= zlim)
+      by (intros [|] [|]; auto).
+    match goal with |- exists m, (if ?c then _ else _) = _ /\ _ => destruct c end.
+    - rewrite E. match goal with |- exists m, (if ?c then _ else _) = _ /\ _ => destruct c end.
+      + match goal with |- context [evap_layer_water_content th' ?zz p] =>
+          destruct (elwc_defined th' zz p zlim) as [e ->]; [apply Hzz|auto|congruence|] end.
+        eexists; split; [reflexivity|]. cbn. split; [congruence|apply Hzz].
+      + eexists; split; [reflexivity|]. cbn. split; [congruence|apply Hzz].
+    - eexists; split; [reflexivity|]. cbn. split; [auto|apply Hzz]. }
+  destruct Hm as (m & -> & Hlm & Hzm).
+  destruct (_ >? _)%num; [|eauto].
+  match goal with |- context [ev_stage2_loop ?k p ?a ?b ?c ?d ?e ?f ?g (?t, ?z, ?es, ?te)] =>
+    destruct (ev_loop_defined p a b c d e f g Hd k t z es te Hlm Hzm) as [[[[th2 z2] es2] te2] ->] end.
+  eauto.
 Qed.
-Example evaporation_bounds_ex : exists o, soil_evaporation wpar wp3 wst wth2 10 0 0 0 false = Some o /\
-  in_bounds wp3 (eo_th o) /\ Forall2 Rle (eo_th o) wth2.
+
+Example soil_evaporation_defined_ex : exists o, soil_evaporation wpar wp3 wst wth 10 0 0 0 false = Some o.
 Proof.
-  destruct wit2_run as (o & H & _). exists o. split; auto.
-  eapply evaporation_bounds; eauto using wit_wf, wit2_in_bounds, wit2_ok.
+  apply soil_evaporation_defined; cbn; try lia; try lra; auto.
+  unfold deep_enough, ev_count. cbn. rnum. rdec. cbn. lia.
 Qed.
+
+(* Print Assumptions: only the axioms of Coq's Reals (checked when this file was written):
+   es_le_pot espot_nonneg evaporation_balance evaporation_bounds evaporation_surface_bounds
+   mulch_neutral mulch_off_inert soil_evaporation_defined *)
